@@ -25,11 +25,12 @@ const (
 	OpAppendDone // async: the append thread handles the head of its queue
 	OpApplyDone  // async: the apply thread handles the head of its queue
 	OpStatus
+	OpProposeWait // a client calls Propose and keeps waiting if the Node does not take the proposal yet
 	NumOps
 )
 
 var OpNames = [...]string{"Tick", "Campaign", "Propose", "ProposeConfChange", "ReadIndex", "Step", "Ready", "Advance",
-	"TransferLeadership", "ReportUnreachable", "ReportSnapshot", "ForgetLeader", "Restart", "AppendDone", "ApplyDone", "Status"}
+	"TransferLeadership", "ReportUnreachable", "ReportSnapshot", "ForgetLeader", "Restart", "AppendDone", "ApplyDone", "Status", "Propose(waiting)"}
 
 // Op is one client operation.
 type Op struct {
